@@ -104,7 +104,7 @@ def run(tier):
         jobs = [(MOD, "job", {"shapes": c, "kind": kind, "maxstop": ms, "maxhide": mh})
                 for c in core.chunks(shapes[::-1], core.NPROC * 8)]
         before = t.c["evaluations"]
-        core.run_pool(jobs + ([("mc.capacity", "job", {"pid": "C06"})] if not bounds else []), a, into=t)
+        core.run_pool(jobs + ([("mc.capacity", "job", {"pid": "C06"}), ("mc.positional", "job", {"pid": "C06"})] if not bounds else []), a, into=t)
         bounds.append({"nodes": [lo, hi], "shapes": len(shapes), "class": kind, "assertions": a,
                        "stop_sets": "all" if ms is None else "<=%d nodes" % ms,
                        "filtered_out_sets": "all" if mh is None else "<=%d nodes" % mh,
@@ -121,5 +121,5 @@ def run(tier):
         "bounds": bounds,
     }
     return {"tally": t, "coverage": cov,
-            "guards": ("capacity_checks", "nontrivial", "stop_pruned_inner_node", "filter_hid_inner_node_with_visible_child", "maxlevel_cut", "iterator_reuse_checks"),
+            "guards": ("positional_calls", "capacity_checks", "nontrivial", "stop_pruned_inner_node", "filter_hid_inner_node_with_visible_child", "maxlevel_cut", "iterator_reuse_checks"),
             "assumptions": ["full stop x filter product up to 5 (6 thorough) nodes; beyond that subsets of bounded size"]}
